@@ -628,14 +628,19 @@ impl G<'_> {
                 out.push_str(&format!("{pad}{k}: &{a} {w}\n"));
             }
             2 => {
-                // anchored flow map (mergeable); built before the anchor is registered
+                // anchored flow map (mergeable); built before the anchor is registered. It may itself
+                // start with a merge key, so that replaying it replays a `<<` in key position.
                 let n = self.rng.range(1, 3);
-                let items: Vec<String> = (0..n)
-                    .map(|_| {
-                        let kk = self.k();
-                        format!("{kk}: {}", self.word())
-                    })
-                    .collect();
+                let mut items: Vec<String> = Vec::new();
+                let maps: Vec<String> = self.anchors.iter().filter(|a| a.1).map(|a| a.0.clone()).collect();
+                if !maps.is_empty() && self.rng.chance(1, 2) {
+                    let m = self.rng.pick(&maps).clone();
+                    items.push(format!("<<: *{m}"));
+                }
+                for _ in 0..n {
+                    let kk = self.k();
+                    items.push(format!("{kk}: {}", self.word()));
+                }
                 let a = self.new_anchor(true);
                 out.push_str(&format!("{pad}{k}: &{a} {{{}}}\n", items.join(", ")));
             }
@@ -650,8 +655,19 @@ impl G<'_> {
                 out.push_str(&format!("{pad}{k}: &{a} {v}\n"));
             }
             4 | 5 if depth > 0 => {
-                // nested block mapping, optionally with a merge key
-                out.push_str(&format!("{pad}{k}:\n"));
+                // nested block mapping, optionally anchored (registered once it is complete) and
+                // optionally with a merge key
+                let anchored = self.rng.chance(1, 3);
+                let pending = if anchored {
+                    self.anchor += 1;
+                    Some(format!("a{}", self.anchor))
+                } else {
+                    None
+                };
+                match &pending {
+                    Some(a) => out.push_str(&format!("{pad}{k}: &{a}\n")),
+                    None => out.push_str(&format!("{pad}{k}:\n")),
+                }
                 let maps: Vec<String> = self.anchors.iter().filter(|a| a.1).map(|a| a.0.clone()).collect();
                 if !maps.is_empty() && self.rng.chance(1, 2) {
                     if maps.len() >= 2 && self.rng.chance(1, 3) {
@@ -664,6 +680,9 @@ impl G<'_> {
                 let n = self.rng.range(1, 3);
                 for _ in 0..n {
                     self.entry(out, indent + 2, depth - 1);
+                }
+                if let Some(a) = pending {
+                    self.anchors.push((a, true));
                 }
             }
             6 if depth > 0 => {
@@ -711,7 +730,7 @@ pub fn kind_doc(kind: usize, rng: &mut Rng) -> String {
     match kind {
         0 => "a: 1\n".to_string(),
         1 => "x: &p [1, 2, 3]\ny: *p\nz: [*p, *p]\n".to_string(),
-        2 => "base: &b {u: 1, v: 2}\nm1:\n  <<: *b\n  w: 3\nm2:\n  <<: *b\n".to_string(),
+        2 => "base: &b {u: 1, v: 2}\nm1: &m\n  <<: *b\n  w: 3\nm2:\n  <<: *b\nm3: *m\nm4: [*m, {<<: *m, z: 1}]\n".to_string(),
         3 => "d: [[[[[deep]]]]]\n".to_string(),
         4 => format!("s: \"{}\"\n", "é".repeat(rng.range(50, 300))),
         // type-level failures that leave containers open when recovery starts
